@@ -7,6 +7,9 @@ Hpath  the real solve_forces dispatch for type in {linear, nonlinear, scipy_fsol
 Hlin   the real _solve_linear assembles exactly the documented linearised system
            A_ij = 2 |v_inf,i x dl_i| delta_ij - V_i CLa_i dS_i (V_ji . u_n,i),     b_i = V_i^2 CL_i dS_i
        (V = in-plane freestream speed when use_in_plane) for arbitrary symbolic flow arrays.
+Heq    with the real `_calc_invariant_flow_properties`, `_solve_linear`, `_lifting_line_residual` and integration (sections uninterpreted in
+       alpha, Re, Mach, flap), the residual function each path iterates on after a history (none / earlier solve at another state, `_solved`
+       kept or cleared) is, for every circulation, the residual of a fresh scene at the current state, and so are the integrated loads.
 Out    that the roots reached by different paths coincide (uniqueness) and the quadratic approach of the linear solution: not decided.
 """
 import numpy as np
@@ -162,6 +165,105 @@ def harness_lin(ck, in_plane):
         ck.sample({"case": label, "A00": str(v["A"][0, 0])[:300]})
 
 
+# ---- Heq: every path iterates on the residual function of the current state (real flow-property and residual code) ----------------
+def run_eq(stype, guess, history):
+    """reference: fresh scene at state s2, default path.  subject: a scene with the given history brought to s2, solved on the
+    given path.  The Newton loop / fsolve are replaced by 'evaluate the residual at one arbitrary circulation and return it'; the flow
+    properties, the linear start, the residual and the integration are the real code with uninterpreted (Re/Mach/flap dependent) sections."""
+    import machupX as MX
+    import machupX.scene as SC
+    from checks.families import UFAirfoil, use_airfoil
+    from checks import kernel as K
+    c = ctx()
+    c.where_assume_true = True
+    gam = wrap(np.array([sym("gam0"), sym("gam1")], dtype=object))
+    s2 = {"v": [sym("v0"), sym("v1"), sym("v2")], "w": [sym("w0"), sym("w1"), sym("w2")], "df": [sym("df0"), sym("df1")]}
+    s1 = {"v": [sym("ov0"), sym("ov1"), sym("ov2")], "w": [sym("ow0"), sym("ow1"), sym("ow2")], "df": [sym("odf0"), sym("odf1")]}
+    rec = {}
+
+    def mk(solver, st):
+        use_airfoil(UFAirfoil)
+        try:
+            sc = MX.Scene({"units": "English", "solver": dict(solver), "scene": {"atmosphere": {"rho": 0.0023769}}})
+            sc.add_aircraft("p", family_G("m1", N=2), state={"velocity": [100.0, 0.0, 5.0]})
+        finally:
+            use_airfoil(None)
+        sc._impingement_threshold = -np.inf
+        put(sc, st)
+
+        def nonlinear(**kw):
+            sc._gamma_lin = wrap(np.array(sc._gamma, dtype=object)) if getattr(sc, "_gamma", None) is not None else None
+            sc._R_seen = sc._lifting_line_residual(gam)
+            sc._gamma = gam
+            return 0.0
+        sc._solve_nonlinear = nonlinear
+        return sc
+
+    def put(sc, st):
+        ap = sc._airplanes["p"]
+        ap.v = wrap(np.array(st["v"], dtype=object))
+        ap.w = wrap(np.array(st["w"], dtype=object))
+        for seg in ap.segments:
+            seg._delta_flap = wrap(np.array(st["df"][:seg.N], dtype=object))
+
+    class _Sopt:
+        def __getattr__(self, n):
+            import scipy.optimize as so
+            return getattr(so, n)
+
+        @staticmethod
+        def fsolve(fun, x0, full_output=True, **kw):
+            R = fun(gam)
+            rec["fs_R"] = R
+            return gam, {"nfev": 1, "fvec": np.zeros(2)}, 1, "stub"
+    saved = SC.sopt
+    SC.sopt = _Sopt()
+    try:
+        ref = mk({"type": "linear" if stype == "linear" else "nonlinear"}, s2)       # the linear solver is compared with itself on a fresh scene
+        fm_ref = K.flatten_fm(ref.solve_forces(body_frame=True, stab_frame=False, wind_frame=True))
+        R_ref = list(ref._R_seen) if stype != "linear" else list(ref._gamma)
+        sub = mk({"type": stype}, s1 if history != "none" else s2)
+        if history != "none":
+            sub.solve_forces()
+            put(sub, s2)
+            sub._solved = (history == "solved-flag-kept")
+        fm = K.flatten_fm(sub.solve_forces(initial_guess=guess, body_frame=True, stab_frame=False, wind_frame=True))
+        R = list(rec["fs_R"]) if stype == "scipy_fsolve" else (list(sub._R_seen) if stype == "nonlinear" else None)
+        if R is None:                  # linear solver: its circulation against the fresh scene's
+            R = list(sub._gamma)
+    finally:
+        SC.sopt = saved
+    return {"R": R, "R_ref": R_ref, "fm": fm, "fm_ref": fm_ref}
+
+
+def harness_eq(ck, stype, guess, history):
+    label = "equations type=%s initial_guess=%s history=%s" % (stype, guess, history)
+    res = explore(lambda: run_eq(stype, guess, history), max_paths=4)
+    ck.add_paths(res)
+    for p in res:
+        lab = "%s path%s" % (label, "".join("1" if d else "0" for d in p.decisions))
+        if not p.ok:
+            ck.inconc("%s: %s %r %s" % (lab, p.kind, p.exc, (p.tb or "")[-400:]))
+            continue
+        v = p.value
+        mk = lambda ob, stype=stype, guess=guess, history=history: Finding("eq", {"type": stype, "guess": guess, "history": history}, ob.label, ob.model)
+        base = list(p.ctx.assumptions) + list(p.ctx.pc)
+        obs = []
+        for i, (a, b) in enumerate(zip(v["R"], v["R_ref"])):
+            g = zexpr(SR(a)) == zexpr(SR(b))
+            obs.append(Obligation("%s residual[%d] is the residual of a fresh scene at the current state" % (lab, i), base + cone_defs(p.ctx, [g]), g, meta={"finding": mk}))
+        obs.append(Obligation(lab + " result key set", [], z3.BoolVal(set(v["fm"]) == set(v["fm_ref"])), meta={"finding": mk}))
+        for k in sorted(set(v["fm"]) & set(v["fm_ref"])):
+            g = zexpr(SR(v["fm"][k])) == zexpr(SR(v["fm_ref"][k]))
+            obs.append(Obligation("%s %s (same circulation) equals the fresh scene's" % (lab, k), base + cone_defs(p.ctx, [g]), g, meta={"finding": mk}))
+        g = zexpr(SR(v["R"][0])) == zexpr(SR(v["R_ref"][0])) + 1
+        obs.append(Obligation(lab + " canary", base, g, canary=True))
+        obs.append(Obligation(lab + " reach", base, z3.BoolVal(True), witness=True))
+        ck.add(obs)
+        if len(ck.samples) < 6:
+            ck.sample({"case": label, "residual0": str(v["R"][0])[:200]})
+
+
 # ---- replay -------------------------------------------------------------------------------------------------------
 def replay_path(inp):
     """history: solve; perturb the aircraft directly; solve again on the given path; compare with a fresh scene (real solver)"""
@@ -220,7 +322,41 @@ def replay_linear(inp):
     return {"reproduced": bool(bad), "key": "linear solver does not solve the documented system", "observed": bad, "what": "%s" % bad}
 
 
-REPLAYS = {"path": replay_path, "linear": replay_linear}
+def replay_eq(inp):
+    """converged loads on the given path with the given history vs a fresh scene on the default path (real solvers, cambered linear
+    airfoil with a flap: the zero-lift angle depends on the flap deflection, the wing is swept)"""
+    from checks.analysis import real_classes
+    import machupX as MX
+    from checks.families import family_G as FG
+    bad = []
+    with real_classes():
+        def mk(stype, alpha, flap):
+            d = FG("g5", N=4)
+            sc = MX.Scene({"units": "English", "solver": {"type": stype, "convergence": 1e-11}, "scene": {"atmosphere": {"rho": 0.0023769}}})
+            sc.add_aircraft("p", d, state={"velocity": 100.0, "alpha": alpha, "beta": 2.0}, control_state={"aileron": flap, "elevator": -flap})
+            return sc
+        fresh = mk("linear" if inp["type"] == "linear" else "nonlinear", 5.0, 8.0)
+        b = fresh.solve_forces()["p"]["total"]
+        if inp["history"] == "none":
+            sc = mk(inp["type"], 5.0, 8.0)
+        else:
+            sc = mk(inp["type"], -2.0, -10.0)
+            sc.solve_forces()
+            sc.set_aircraft_state(state={"velocity": 100.0, "alpha": 5.0, "beta": 2.0})
+            sc.set_aircraft_control_state(control_state={"aileron": 8.0, "elevator": -8.0})
+        try:
+            a = sc.solve_forces(initial_guess=inp["guess"])["p"]["total"]
+            for k in b:
+                if abs(a[k] - b[k]) > 1e-6 * max(abs(a[k]), abs(b[k]), 1e-3):
+                    bad.append((k, a[k], b[k]))
+        except Exception as e:
+            if type(e).__name__ != "SolverNotConvergedError":
+                bad.append(("exception", repr(e)))
+    return {"reproduced": bool(bad), "key": "solver path %s/%s iterates on equations of another state" % (inp["type"], inp["guess"]), "observed": bad[:5],
+            "what": "solve_forces(type=%s, initial_guess=%s, history=%s) converges to loads different from a fresh scene on the default path: %s" % (inp["type"], inp["guess"], inp["history"], bad[:3])}
+
+
+REPLAYS = {"path": replay_path, "linear": replay_linear, "eq": replay_eq}
 
 
 def main(tier, seed, only=None):
@@ -231,6 +367,7 @@ def main(tier, seed, only=None):
     ck.stub("FlowStub: _calc_invariant_flow_properties records the state it is called at and fills the flow arrays with fresh symbols",
             "ResidStub: _lifting_line_residual is an uninterpreted residual recording the flow tag in force", "linsolve (A x = b)", "fsolve: arbitrary x, ier = 1",
             "_integrate_forces_and_moments: recorder")
+    ck.stub("Heq: Newton loop / fsolve replaced by one residual evaluation at an arbitrary circulation; flow properties, linear start, residual and integration are the real code; sections uninterpreted in (alpha, Re, Mach, flap)")
     ck.assume("reduced claim: every path evaluates the same residual function of the *current* state and the linear solver solves the documented system",
               "relaxation in (0,1], convergence > 0 symbolic; max_iterations = 2")
     ck.out_of_claim("equality of the converged loads across paths (needs uniqueness of the root of the lifting-line equations)",
@@ -244,10 +381,15 @@ def main(tier, seed, only=None):
                 if tier != "thorough" and stype == "linear" and guess == "previous" and not pre:
                     continue
                 tasks.append(("%s %s %s" % (stype, guess, pre), lambda c, stype=stype, guess=guess, pre=pre: harness_path(c, stype, guess, pre)))
+    for stype, guess, history in (("nonlinear", "previous", "none"), ("nonlinear", "previous", "solved-flag-cleared"), ("nonlinear", "previous", "solved-flag-kept"),
+                                  ("nonlinear", "linear", "solved-flag-cleared"), ("scipy_fsolve", "linear", "solved-flag-cleared"), ("linear", "linear", "solved-flag-cleared")):
+        if only and "eq" not in only:
+            continue
+        tasks.append(("eq %s %s %s" % (stype, guess, history), lambda c, stype=stype, guess=guess, history=history: harness_eq(c, stype, guess, history)))
     if not only or "lin" in only:
         tasks.append(("lin in-plane", lambda c: harness_lin(c, True)))
         tasks.append(("lin total", lambda c: harness_lin(c, False)))
     run_parallel(ck, tasks)
     ck.bound(N="2 sections (one-segment aircraft); the dispatch logic does not depend on N", loop_unrolling=2, histories="one earlier solve + direct state change, _solved either way")
-    ck.rung("Hpath, Hlin")
+    ck.rung("Hpath, Hlin, Heq")
     return ck.finish()
